@@ -530,18 +530,6 @@ func copyOutSymlink(w *bytes.Buffer, param *syntax.StructMember,
 		}
 	}
 
-	// If this param has already been moved to outs/, we're done
-	if _, err := os.Stat(outPath); err == nil {
-		if b, err := json.Marshal(outPath); err != nil {
-			if _, err := w.Write(value); err != nil {
-				return err
-			}
-			return err
-		} else {
-			_, err := w.Write(b)
-			return err
-		}
-	}
 	var p string
 	p, err := os.Readlink(filePath)
 	if err != nil {
@@ -574,6 +562,10 @@ func copyOutSymlink(w *bytes.Buffer, param *syntax.StructMember,
 		// Use the destination of the symlink, not the location in outs.
 		if _, err := w.Write(pb); err != nil {
 			return err
+		}
+		// If this param has already been linked in outs/, we're done
+		if _, err := os.Stat(outPath); err == nil {
+			return nil
 		}
 		if filepath.IsAbs(p) {
 			return os.Symlink(p, outPath)
